@@ -219,6 +219,68 @@ func runDoc(c *fw.Ctx, id string, dir string) {
 	}
 }
 
+// runHistory re-uses one path string while the file's content changes: the
+// decision must follow the bytes that are there now, not what the same name
+// held before (a document replaced on disk, a temp name recycled).
+func runHistory(c *fw.Ctx, id string, dir string) {
+	var fi int
+	fmt.Sscanf(id, "hist:%d", &fi)
+	r := c.Rand("hist", id)
+	f := samples.Formats[fi%len(samples.Formats)]
+	g := samples.Formats[(fi+1+r.Intn(len(samples.Formats)-1))%len(samples.Formats)]
+	docs := map[string]samples.Sample{f: samples.Make(f, r), g: samples.Make(g, r)}
+	primary := map[string]string{}
+	for _, es := range extSpellings {
+		if _, ok := primary[es.f]; !ok {
+			primary[es.f] = es.ext
+		}
+	}
+	put := func(path string, data []byte, how int) {
+		switch how {
+		case 0: // overwrite in place
+			os.WriteFile(path, data, 0o644)
+		case 1: // replace by rename (new inode, same name)
+			tmp := path + ".tmp"
+			os.WriteFile(tmp, data, 0o644)
+			os.Rename(tmp, path)
+		default: // delete, then create again
+			os.Remove(path)
+			os.WriteFile(path, data, 0o644)
+		}
+	}
+	for _, named := range []string{f, g} {
+		path := filepath.Join(dir, fmt.Sprintf("%s.%s", strings.ReplaceAll(id, ":", "_"), primary[named]))
+		other := g
+		if named == g {
+			other = f
+		}
+		// own, foreign, own, foreign … starting with either
+		seq := []string{named, other, named, other}
+		if r.Intn(2) == 0 {
+			seq = []string{other, named, other, named}
+		}
+		var trail []string
+		for step, content := range seq {
+			how := r.Intn(3)
+			put(path, docs[content].Data, how)
+			ok, oerr := opens(path)
+			own := content == named
+			trail = append(trail, fmt.Sprintf("%s-bytes/how=%d:%v", content, how, ok))
+			c.Case(fmt.Sprintf("hist|%s|%s|%d|%d|%x", named, content, step, how, fnv(docs[content].Data)), step > 0)
+			c.Count("same_path_reopens_checked", 1)
+			c.Seen("history-step", fmt.Sprintf("named=%s content=%s step=%d", named, content, step))
+			detail := map[string]any{"path_ext": primary[named], "history": trail}
+			switch {
+			case own && (!ok || oerr != nil):
+				c.Fail("", "same-path/own-refused/"+named, id, fmt.Sprintf("valid %s document written to a .%s path that held %s bytes before does not open (step %d): %v", content, primary[named], other, step, oerr), detail)
+			case !own && ok:
+				c.Fail("", "same-path/mismatch-accepted/"+named, id, fmt.Sprintf("%s bytes written to a .%s path that held a valid %s document before produced output instead of an error (step %d)", content, primary[named], named, step), detail)
+			}
+		}
+		os.Remove(path)
+	}
+}
+
 func fnv(b []byte) uint64 {
 	h := uint64(14695981039346656037)
 	for _, c := range b {
@@ -299,7 +361,7 @@ func runDRM(c *fw.Ctx, id string, dir string) {
 			}
 		}
 		r.Shuffle(len(ents), func(i, j int) { ents[i], ents[j] = ents[j], ents[i] }) // entry order in encryption.xml is arbitrary
-		rights := mask == (1<<uint(n))-1 && r.Intn(2) == 0 // sometimes add rights.xml on the full subset
+		rights := mask == (1<<uint(n))-1 && r.Intn(2) == 0                           // sometimes add rights.xml on the full subset
 		ms := append([]epubw.Member{}, base...)
 		ms = append(ms, epubw.Member{Name: "META-INF/encryption.xml", Data: epubw.EncryptionXML(ents)})
 		if rights {
@@ -354,6 +416,7 @@ func hasOddContentName(items []item) bool {
 func Run(c *fw.Ctx) {
 	c.Rule("case = (valid generated document of format F, physical variant: ZIP member order / decoy members of other formats / embedded documents / HTML prologue, file name extension spelling) for the admission matrix; " +
 		"(EPUB, subset of 6 manifest items marked encrypted, algorithm URI, URI spelling, rights.xml) for the DRM matrix (all 64 subsets per book); " +
+		"(two documents of different formats, one path named for either, sequence of 4 content replacements in place / by rename / by delete+create) for the same-path histories; " +
 		"non-trivial iff the extension denotes another format than the bytes, or the variant differs from the writer's output, or encryption.xml has >= 1 entry")
 	c.Assume("the package type of an OOXML file is defined by its content types / root relationship, of ODF/EPUB by the mimetype member: a stray member under another format's directory name does not change it",
 		"must-refuse = rights.xml present, or a spine content document encrypted with a non-obfuscation algorithm; must-open = only fonts covered, only by the two obfuscation algorithms (or no entry); everything else is not asserted")
@@ -364,6 +427,13 @@ func Run(c *fw.Ctx) {
 		id := fmt.Sprintf("doc:%d", i)
 		if c.Want(id) {
 			runDoc(c, id, dir)
+		}
+	})
+	nh := c.N(42, 1400)
+	c.Parallel(nh, func(i int) {
+		id := fmt.Sprintf("hist:%d", i)
+		if c.Want(id) {
+			runHistory(c, id, dir)
 		}
 	})
 	nb := c.N(40, 1500)
